@@ -24,6 +24,7 @@ bytes = { version = "1.5", default-features = false }
 indexmap = { version = "2.2" }"""
 
 SIG_F8 = "C16.enum_variant_comment_roundtrip"
+SIG_OPTOPT = "C16.nested_option_roundtrip"
 
 LEAF_SPELL = {"&str": "&'a str", "chrono::DateTime<Tz>": "chrono::DateTime<chrono::Utc>"}
 UNSIZED = {"str", "std::path::Path", "std::ffi::OsStr"}
@@ -402,8 +403,95 @@ def gen_corpus(ck, rows):
     return g, bins
 
 
-def rust_bin(g, b):
-    byid = {d["id"]: d for d in g.decls}
+
+EXPORT_KEYS = ("id", "derive", "body", "rname", "lt", "rust", "coq", "users", "has_raw", "expect_fail")
+
+
+def export_decl(d):
+    return {k: d.get(k) for k in EXPORT_KEYS}
+
+
+def closure(byid, ids):
+    """ids plus the declarations they use, in definition order."""
+    need = set()
+    for i in ids:
+        need.add(i)
+        need.update(byid[i].get("users") or [])
+    return [byid[i] for i in sorted(need)]
+
+
+def mini_bins(ck, path_or_obj, prefix, next_id):
+    """Bins from mini corpora ({"decls": [...], "iface": {...}|None} per line): the regression corpus
+    and replay files. Declaration ids are renumbered from next_id."""
+    objs = []
+    if isinstance(path_or_obj, dict):
+        objs = [path_or_obj]
+    elif os.path.exists(path_or_obj):
+        objs = [json.loads(l) for l in open(path_or_obj) if l.strip() and not l.startswith("#")]
+    bins, decls = [], []
+    for k, o in enumerate(objs):
+        remap = {}
+        ids = []
+        for d in o["decls"]:
+            d = dict(d)
+            remap[d["id"]] = next_id
+            d["id"] = next_id
+            next_id += 1
+            d["users"] = [remap[u] for u in d.get("users") or []]
+            d.setdefault("has_raw", False)
+            d.setdefault("docs", [])
+            d["mini"] = True
+            decls.append(d)
+            ids.append(d["id"])
+        b = {"name": "%s%d" % (prefix, k), "decls": ids, "ifaces": [], "isolated": len(ids) == 1,
+             "expect_fail": any(d.get("expect_fail") for d in o["decls"])}
+        it = o.get("iface")
+        if it:
+            it = dict(it)
+            it["id"] = "%s.i0" % b["name"]
+            it["types"] = [remap[t] for t in it.get("types", [])]
+            it["errors"] = remap[it["errors"]] if it.get("errors") is not None else None
+            it["methods"] = [dict(m, **{"in": remap[m["in"]], "out": remap[m["out"]]}) for m in it.get("methods", [])]
+            it.setdefault("docs", [])
+            b["ifaces"].append(it)
+        bins.append(b)
+    return bins, decls, next_id
+
+
+def negative_cases():
+    """Declarations the derives must reject (the model says: compile error)."""
+    fld = '{| fd_name := id_ "a"; fd_ty := RLeaf L_u8; fd_docs := [] |}'
+    obj = ('{| d_name := id_ "NegP"; d_docs := []; d_body := DStruct [%s] |}' % fld)
+    cases = [
+        ("type", "struct", "pub struct NegT1(pub u8, pub String);",
+         '(DTupleStruct [RLeaf L_u8; RLeaf L_String])', "NegT1"),
+        ("custom", "struct", "pub struct NegT2(pub u8);", '(DTupleStruct [RLeaf L_u8])', "NegT2"),
+        ("type", "enum", "pub enum NegT3 { A, B(u8) }",
+         '(DEnum [{| vd_name := id_ "A"; vd_docs := []; vd_body := VUnit |}; '
+         '{| vd_name := id_ "B"; vd_docs := []; vd_body := VTuple [RLeaf L_u8] |}])', "NegT3"),
+        ("custom", "enum", "pub enum NegT4 { A { a: u8 } }",
+         '(DEnum [{| vd_name := id_ "A"; vd_docs := []; vd_body := VNamed [%s] |}])' % fld, "NegT4"),
+        ("error", "enum", "pub enum NegT5 { A(u8, u8) }",
+         '(DEnum [{| vd_name := id_ "A"; vd_docs := []; vd_body := VTuple [RLeaf L_u8; RLeaf L_u8] |}])', "NegT5"),
+        ("error", "enum", "pub enum NegT6 { A(String) }",
+         '(DEnum [{| vd_name := id_ "A"; vd_docs := []; vd_body := VTuple [RLeaf L_String] |}])', "NegT6"),
+        ("error", "struct", "pub struct NegT7 { pub a: u8 }", '(DStruct [%s])' % fld, "NegT7"),
+        ("type", "struct", "pub struct NegT8 { pub a: (u8, u8) }",
+         '(DStruct [{| fd_name := id_ "a"; fd_ty := RUnsupported; fd_docs := [] |}])', "NegT8"),
+        ("type", "struct", "pub struct NegT9 { pub a: std::collections::HashMap<u32, String> }",
+         '(DStruct [{| fd_name := id_ "a"; fd_ty := RUnsupported; fd_docs := [] |}])', "NegT9"),
+    ]
+    out = []
+    for k, (derive, body, rust, cbody, nm) in enumerate(cases):
+        der = {"type": "Type", "custom": "CustomType", "error": "ReplyError"}[derive]
+        out.append({"decls": [{"id": 0, "derive": derive, "body": body, "rname": nm, "lt": False,
+                               "rust": "#[derive(%s)]\n%s" % (der, rust),
+                               "coq": '{| d_name := id_ "%s"; d_docs := []; d_body := %s |}' % (nm, cbody),
+                               "users": [], "expect_fail": True}]})
+    return out
+
+
+def rust_bin(byid, b):
     L = ["// GENERATED by checks/c16.py — corpus binary %s" % b["name"],
          "#![allow(dead_code, non_camel_case_types, non_snake_case, unused_imports, unused_variables)]",
          '#[path = "../dump.rs"]', "mod dump;",
@@ -500,11 +588,16 @@ def has_variant_comments(j):
     return any(in_ty(t) for _, t, _ in fs)
 
 
-def norm_iface(j):
+def has_nested_option(j):
+    """Does a dumped interface contain ??T (Option<Option<T>>, possibly through transparent wrappers)?"""
+    return '{"opt": {"opt":' in json.dumps(j)
+
+
+def norm_iface(j, with_comments=True):
     """Interface JSON with comment texts stripped of leading/trailing blanks (the renderer writes
-    `# ` + text and the parser drops the blanks after `#`)."""
+    `# ` + text and the parser drops the blanks after `#`), or without comments at all."""
     def cm(cs):
-        return [c.strip(" \t") for c in cs]
+        return [c.strip(" \t") for c in cs] if with_comments else []
 
     def ty(t):
         if isinstance(t, str):
@@ -555,27 +648,39 @@ def main():
         ck.coq_build(["Codegen/DeriveExec.v"])
 
     # ---- corpus
+    bins, decls = [], []
     if ck.replay:
         rp = json.load(open(ck.replay))
-        ck.seed = rp.get("seed", ck.seed)
-        ck.tier = rp.get("tier", ck.tier)
-        import random
-        ck.rng = random.Random(ck.seed * 1000003 + int(PID[1:]))
-    g, bins = gen_corpus(ck, rows)
-    byid = {d["id"]: d for d in g.decls}
+        if "decls" not in rp:
+            ck.violation("replay file carries no declarations", {"file": ck.replay}, tag="replay", no_input=True)
+            ck.finish()
+        bins, decls, _ = mini_bins(ck, {"decls": rp["decls"], "iface": rp.get("iface")}, "c16p", 0)
+        g = None
+    else:
+        g, gbins = gen_corpus(ck, rows)
+        nxt = g.n
+        kb, kd, nxt = mini_bins(ck, os.path.join(VERIF, "corpus", "c16.jsonl"), "c16k", nxt)
+        nb, nd = [], []
+        for k, o in enumerate(negative_cases() if ck.tier == "thorough" or True else []):
+            b1, d1, nxt = mini_bins(ck, o, "c16n%d_" % k, nxt)
+            nb += b1
+            nd += d1
+        bins = kb + gbins + nb
+        decls = kd + g.decls + nd
+    byid = {d["id"]: d for d in decls}
     files = {"src/dump.rs": cg.DUMP_RS}
     linemap = {}
     for b in bins:
-        src, lines = rust_bin(g, b)
+        src, lines = rust_bin(byid, b)
         files["src/bin/%s.rs" % b["name"]] = src
         linemap[b["name"]] = lines
-    cdir = os.path.join(ck.workdir, "crate")
-    cg.write_crate(cdir, "c16corpus", DEPS, files)
+    cdir = os.path.join(ck.workdir, "replay-crate" if ck.replay else "crate")
+    cg.write_crate(cdir, "c16replay" if ck.replay else "c16corpus", DEPS, files)
     ok, log = cg.cargo_build(cdir, keep_going=True)
     results, ifres, failed_bins = {}, {}, []
     for b in bins:
         exe = os.path.join(cg.TARGET, "debug", b["name"])
-        m = re.search(r"could not compile `c16corpus` \(bin \"%s\"\)" % b["name"], log)
+        m = re.search(r"could not compile `c16\w+` \(bin \"%s\"\)" % b["name"], log)
         if m or not os.path.exists(exe):
             failed_bins.append(b)
             continue
@@ -587,6 +692,7 @@ def main():
                 results[r["id"]] = r
             elif "iface" in r:
                 ifres[r["iface"]] = r
+    unexpected = [b for b in failed_bins if not b.get("expect_fail")]
     if not ok and not failed_bins:
         ck.violation("corpus crate does not build", {"log": log[-3000:]}, tag="build", no_input=True)
         ck.finish()
@@ -601,6 +707,10 @@ def main():
                     culprits.add(i)
         if b["isolated"]:
             culprits.add(b["decls"][0])
+        if not any(i in culprits for i in b["decls"]):
+            errs = cg.first_errors(log)
+            ck.violation("corpus binary %s does not compile and no declaration could be blamed" % b["name"],
+                         {"errors": errs, "log": log[-3000:], "tier": ck.tier}, tag="build_" + b["name"], no_input=True)
     items, skipped = [], 0
     for b in bins:
         for i in b["decls"]:
@@ -622,20 +732,23 @@ def main():
         nv += 1
         term = render_case(d, r)
         shown = ck.coq_show(HEADER, "(model_outcome (%s), spec_outcome (%s))" % (term, term))
-        rp = {"decl_rust": d["rust"], "decl_coq": d["coq"], "impl": r, "model_and_spec": shown[-3000:],
+        rp = {"decls": [export_decl(x) for x in closure(byid, [d["id"]])], "target": d["rname"],
+              "decl_rust": d["rust"], "impl": r, "model_and_spec": shown[-3000:],
               "tier": ck.tier, "compile_log": log[-1500:] if r is None else ""}
         if code & 2:
             what = ("derived description differs from the declaration (%s derive, %s)" % (d["derive"], d["body"]))
             if r is None:
-                what = "the %s derive fails to compile for a valid declaration (raw identifier: %s)" % (
-                    d["derive"], d["has_raw"])
-            ck.violation(what, rp, tag="d%d" % d["id"])
+                what = "the %s derive fails to compile for a valid declaration" % d["derive"]
+            elif d.get("expect_fail"):
+                what = "the %s derive accepts a declaration it has no description for (%s)" % (
+                    d["derive"], d["rust"].split("\n")[-1][:80])
+            ck.violation(what, rp, tag="d_" + d["rname"])
         else:
             rp["correspondence"] = "Codegen/Derive.v vs zlink-macros/src/introspect"
             ck.violation("implementation differs from the derive model (description agrees with the spec)", rp,
-                         tag="m%d" % d["id"], no_input=True)
+                         tag="m_" + d["rname"], no_input=True)
     # ---- interfaces: render -> parse -> equal
-    n_if, n_rt_ok, n_f8 = 0, 0, 0
+    n_if, n_rt_ok, n_f8, n_optopt, n_comment_loss, comment_loss_sample = 0, 0, 0, 0, 0, []
     for b in bins:
         if b in failed_bins:
             continue
@@ -645,48 +758,66 @@ def main():
             if r is None:
                 ck.violation("no round-trip result for interface " + it["id"], {"iface": it}, tag="if_missing", no_input=True)
                 continue
-            good = r["parse_ok"] and r["eq"] and norm_iface(r["orig"]) == norm_iface(r["parsed"])
+            # equal = zlink's own PartialEq on Interface AND structural equality of names, types and
+            # order (a guard against a degenerate PartialEq). Comment texts are compared too, but a
+            # difference in comments alone is only counted: zlink's equality deliberately ignores
+            # comments everywhere except on enum variants.
+            same_struct = r["parse_ok"] and norm_iface(r["orig"], False) == norm_iface(r["parsed"], False)
+            good = r["parse_ok"] and r["eq"] and same_struct
             if good:
                 n_rt_ok += 1
+                if norm_iface(r["orig"]) != norm_iface(r["parsed"]):
+                    n_comment_loss += 1
+                    if not comment_loss_sample:
+                        comment_loss_sample.append(r["text"][:400])
                 continue
+            used = it["types"] + ([it["errors"]] if it["errors"] is not None else []) + \
+                [m["in"] for m in it["methods"]] + [m["out"] for m in it["methods"]]
             rp = {"iface": it, "result": r, "tier": ck.tier,
-                  "decls": [byid[i]["rust"] for i in it["types"] + ([it["errors"]] if it["errors"] is not None else [])
-                            + [m["in"] for m in it["methods"]] + [m["out"] for m in it["methods"]]]}
+                  "decls": [export_decl(x) for x in closure(byid, used)]}
             what = "interface assembled from derived descriptions does not render/parse back to an equal description: "
             what += ("parse error " + r.get("err", "")[:120]) if not r["parse_ok"] else (
-                "parsed != original" if not r["eq"] else "comments or structure differ after the round trip")
+                "parsed != original" if not r["eq"] else "names, types or order differ after the round trip")
             if has_variant_comments(r["orig"]):
                 n_f8 += 1
                 ck.violation(what, rp, tag="if_" + it["id"], sig=SIG_F8)
+            elif has_nested_option(r["orig"]):
+                n_optopt += 1
+                ck.violation(what, rp, tag="if_" + it["id"], sig=SIG_OPTOPT)
             else:
                 ck.violation(what, rp, tag="if_" + it["id"])
     # ---- coverage
     shapes = {}
-    for d in g.decls:
+    gdecls = g.decls if g else []
+    for d in decls:
         k = "%s/%s" % (d["derive"], d["body"])
         shapes[k] = shapes.get(k, 0) + 1
-    unused = [r["rust"] for r in rows if (r["kind"] == "leaf" and r["rust"] not in g.leaf_uses)
-              or (r["kind"] == "ctor" and r["rust"] not in g.ctor_uses)]
+    unused = [r["rust"] for r in rows if g and ((r["kind"] == "leaf" and r["rust"] not in g.leaf_uses)
+              or (r["kind"] == "ctor" and r["rust"] not in g.ctor_uses))]
     nontriv = set()
     for d, r in items:
         nf = len(d.get("fields", [])) + sum(len(v.get("fields", [])) + 1 for v in d.get("variants", []))
         if nf >= 2:
             nontriv.add(case_hash(d["rust"]))
     ck.cov.update({
-        "evaluations": len(items) + n_if, "distinct_nontrivial": len(nontriv), "programs": len(g.decls),
+        "evaluations": len(items) + n_if, "distinct_nontrivial": len(nontriv), "programs": len(decls),
         "traces_validated_against_impl": len([1 for _, r in items if r is not None]),
-        "corpus_binaries": len(bins), "binaries_failed_to_compile": [b["name"] for b in failed_bins],
+        "corpus_binaries": len(bins), "binaries_failed_to_compile": [b["name"] for b in unexpected],
+        "negative_declarations_rejected_as_the_model_says": len([b for b in failed_bins if b.get("expect_fail")]),
         "declarations_skipped_in_failed_binaries": skipped,
         "declaration_kinds": shapes, "interfaces_round_tripped": n_if, "interfaces_equal_after_round_trip": n_rt_ok,
         "interfaces_hitting_known_variant_comment_defect": n_f8,
+        "interfaces_hitting_known_nested_option_defect": n_optopt,
+        "interfaces_equal_but_comments_of_inline_struct_fields_lost_by_the_parser": n_comment_loss,
+        "comment_loss_sample": comment_loss_sample,
         "table_rows_never_used_in_corpus": unused,
-        "field_count_histogram": {str(k): sum(1 for d in g.decls if len(d.get("fields", [])) == k and d["body"] == "struct")
+        "field_count_histogram": {str(k): sum(1 for d in gdecls if len(d.get("fields", [])) == k and d["body"] == "struct")
                                   for k in range(7)},
-        "decls_with_lifetimes": sum(1 for d in g.decls if d["lt"]),
-        "decls_with_doc_comments": sum(1 for d in g.decls if d["docs"] or any(f["docs"] for f in d.get("fields", []))),
-        "decls_with_raw_identifiers": sum(1 for d in g.decls if d["has_raw"]),
+        "decls_with_lifetimes": sum(1 for d in decls if d["lt"]),
+        "decls_with_doc_comments": sum(1 for d in gdecls if d["docs"] or any(f["docs"] for f in d.get("fields", []))),
+        "decls_with_raw_identifiers": sum(1 for d in decls if d.get("has_raw")),
     })
-    for d in g.decls[:2] + g.decls[len(g.decls) // 2:len(g.decls) // 2 + 2]:
+    for d in gdecls[:2] + gdecls[len(gdecls) // 2:len(gdecls) // 2 + 2]:
         ck.samples.append({"rust": d["rust"], "impl": results.get(d["id"])})
     ck.assumptions += [
         "the derive model Codegen/Derive.v is hand-written; its tie to zlink-macros/src/introspect is the "
